@@ -9,5 +9,8 @@ verus! {
 //%% include-assumed inc/varlabel.rs
 //%% include-assumed inc/foldcore.rs
 //%% include inc/sddfold.rs
+//%% include prelude/csr.rs
+//%% include prelude/zsum.rs
+//%% include prelude/sddthm.rs
 } // verus!
 fn main() {}
